@@ -2,6 +2,7 @@ package main
 
 import (
 	"fmt"
+	"strings"
 
 	"golang.org/x/tools/go/ssa"
 )
@@ -13,6 +14,9 @@ func init() {
 			p.serveLoop(id).report(r, id)
 			if id == "C17" {
 				hijackHandlerRule(p, r)
+			}
+			if id == "C11" {
+				resetCoverageRule(p, r)
 			}
 		}})
 	}
@@ -114,4 +118,81 @@ func hijackHandlerRule(p *Prog, r *Report) {
 	// the ctx handed to the goroutine is released exactly there
 	hit, path := reachAvoiding(fn, nil, isReturn, callTo(fRelCtx), nil)
 	r.Check("R5", "hijackConnHandler releases the ctx it was handed on every path", hit == nil, p.Pos(fn.Pos()), "a return is reachable without releaseCtx: the ctx taken over from the serve loop leaks", blocksString(p, path)...)
+}
+
+// C11.E7: every field of every per-request object is cleared by its reset
+// method on every path, or is in the reasoned exemption table.
+type resetPair struct {
+	typ, method string
+	floor       int
+}
+
+var resetPairs = []resetPair{
+	{"Request", "Reset", 20}, {"Response", "Reset", 20}, {"RequestHeader", "Reset", 15}, {"ResponseHeader", "Reset", 15},
+	{"URI", "Reset", 10}, {"Args", "Reset", 1}, {"Cookie", "Reset", 8}, {"RequestCtx", "reset", 10},
+}
+
+// resetExempt: field path suffix -> reason. Keyed by "Type.path".
+var resetExempt = map[string]string{}
+
+func resetCoverageRule(p *Prog, r *Report) {
+	for _, rp := range resetPairs {
+		fn := p.Func("(*" + rp.typ + ")." + rp.method)
+		nt := p.NamedType(rp.typ)
+		if fn == nil || nt == nil {
+			r.Undecided("E7", rp.typ+"."+rp.method, "type or method not found")
+			continue
+		}
+		written := fieldsWritten(p, fn, 0, 5)
+		var all []string
+		collectFieldPaths(nt, "", &all, 0)
+		n := 0
+		for _, fp := range all {
+			if reason := resetExemptReason(rp.typ, fp); reason != "" {
+				r.Note("E7 exempt %s.%s: %s", rp.typ, fp, reason)
+				continue
+			}
+			n++
+			r.Check("E7", fmt.Sprintf("%s.%s clears %s on every path", rp.typ, rp.method, fp), coveredBy(written, fp), p.Pos(fn.Pos()),
+				"the field is not assigned on some path through the reset method (and its callees): a recycled object can carry this field from the previous request into the next one")
+		}
+		r.Floor("E7", rp.typ+"."+rp.method+" fields", n, rp.floor)
+	}
+}
+
+func resetExemptReason(typ, fp string) string {
+	if r := resetExempt[typ+"."+fp]; r != "" {
+		return r
+	}
+	base := fp
+	if i := strings.LastIndex(fp, "."); i >= 0 {
+		base = fp[i+1:]
+	}
+	switch base {
+	case "noCopy":
+		return "zero-size vet marker"
+	case "bufK", "bufV", "mulHeader":
+		return "scratch buffer: written before it is read within every call that uses it"
+	case "secureErrorLogMessage":
+		return "logging option imposed by the owner before every use (the serve loop stores it on every iteration; checked by R-config), not request data"
+	case "keepBodyBuffer":
+		return "allocation policy set when the object is acquired (acquireCtx / AcquireRequest), not request data"
+	}
+	switch {
+	case strings.HasSuffix(fp, "w.r"):
+		return "self pointer of the BodyWriter adapter (points back at the owning Request/Response)"
+	case strings.HasSuffix(fp, "Args.buf") || strings.HasSuffix(fp, "postArgs.buf") || strings.HasSuffix(fp, "queryArgs.buf") || (typ == "Args" && fp == "buf"):
+		return "scratch buffer of Args getters: overwritten from [:0] by every call that reads it"
+	case strings.HasSuffix(fp, "uri.fullURI") || strings.HasSuffix(fp, "uri.requestURI") || (typ == "URI" && (fp == "fullURI" || fp == "requestURI")):
+		return "derived caches: FullURI()/RequestURI() rebuild them from [:0] on every call before returning them"
+	case typ == "RequestCtx" && (fp == "logger.ctx" || fp == "logger.logger"):
+		return "ctxLogger self pointer and the server's logger (configuration)"
+	case typ == "RequestCtx" && fp == "s":
+		return "server pointer: documented as deliberately kept (one pool per server; context.Done/Err of a late handler read only ctx.s)"
+	case typ == "RequestCtx" && (fp == "timeoutCh" || fp == "timeoutTimer"):
+		return "reused synchronisation objects (semaphore channel, stopped timer): carry no request data"
+	case typ == "RequestCtx" && fp == "formValueFunc":
+		return "configuration copied from Server.FormValueFunc when the ctx is acquired"
+	}
+	return ""
 }
